@@ -8,3 +8,4 @@ package leanhelix
 func verifWorkerIdle(lh *WorkerLoop)                            {}
 func verifMainIdle(m *MainLoop)                                 {}
 func verifMainEvent(m *MainLoop, ev string, h uint64, v uint64) {}
+func verifWorkerEvent(lh *WorkerLoop, ev string)                {}
